@@ -301,6 +301,10 @@ NoGhost(s) == \A k \in KeysOf(s.lay), n \in NodesOf(s.lay) : Present(s.store[n][
 JoinsAt(s, x) == {j \in NodesOf(s.lay) : s.jpc[j] \in {"granted", "installed", "stabilized", "adv", "act", "rel"} /\ s.jsl[j] # <<>> /\ s.jsl[j][1] = x}
 LeavesAt(s, x) == {l \in NodesOf(s.lay) : s.lpc[l] \in {"locked", "adv", "left", "rel"} /\ (s.ls[l] = x \/ l = x) /\ s.ls[l] # l}
 OneMembershipOp(s) == \A x \in NodesOf(s.lay) : Cardinality(JoinsAt(s, x)) + Cardinality(LeavesAt(s, x)) <= 1     \* C06
+(* C06 on the pointers alone (no protocol counters): a joiner that has installed the answer of its successor and is still Joining
+   holds that successor's membership lock - the successor is Transferring until the joiner, by then Active, releases it *)
+JoinLockHeld(s) == \A j \in NodesOf(s.lay) :
+   (s.st[j] = "Joining" /\ s.succ[j] # <<>> /\ s.succ[j][1] # j) => s.st[s.succ[j][1]] = "Transferring"
 Quiet(s) == \A n \in NodesOf(s.lay) : s.jpc[n] \in {"idle", "done", "failed"} /\ s.lpc[n] \in {"idle", "done", "failed"}
 NoStuck(s) == Quiet(s) => \A n \in NodesOf(s.lay) : s.st[n] \in {"Inactive", "Active", "Left"}                 \* C06 / C07
 RECURSIVE PrevMember(_, _, _)
@@ -422,6 +426,7 @@ InvSingleCopy == SingleCopy(s)
 InvNoLoss == NoLoss(s)
 InvNoGhost == NoGhost(s)
 InvOneOp == OneMembershipOp(s)
+InvJoinLockHeld == JoinLockHeld(s)
 InvNoStuck == NoStuck(s)
 InvPlacement == Placement(s)
 InvReachable == Reachable(s)
